@@ -6,7 +6,10 @@
    one goroutine per writer / streamer (so calls of different processes overlap), and the
    recorded events are validated against RelayTrace.                                    *)
 EXTENDS Relay, Json
-CONSTANT MinSeq   \* a writer is closed only after it has written at least this many frames
+CONSTANTS MinSeq,     \* a writer is closed only after it has written at least this many frames
+          CloseAfter  \* [Writers -> SUBSET Writers]: writers that must be closed before this one is
+                      \* (a data-channel-only writer that took the channel over could not be written
+                      \* to without error once the index holder is gone: nothing C20 talks about)
 VARIABLE hist
 gvars2 == <<vars, hist>>
 Rec(a, p, ks, m) == [a |-> a, p |-> p, ks |-> ks, m |-> m]
@@ -16,7 +19,8 @@ GInit == Init /\ hist = <<>>
 GEnv ==
   \/ \E w \in Writers : \/ WriterOpen(w) /\ H(Rec("wopen", w, {}, ""))
                         \/ WriteCall(w) /\ H(Rec("write", w, {}, ""))
-                        \/ wnext[w] > MinSeq /\ WriterClose(w) /\ H(Rec("wclose", w, {}, ""))
+                        \/ wnext[w] > MinSeq /\ (\A o \in CloseAfter[w] : wstate[o] \in {"closed"})
+                           /\ WriterClose(w) /\ H(Rec("wclose", w, {}, ""))
   \/ \E s \in Streamers : \E K \in OpenSubs : StreamerOpen(s, K) /\ H(Rec("sopen", s, K, ""))
   \/ \E s \in Streamers : \E K \in Subs : ResubCall(s, K) /\ H(Rec("ssub", s, K, ""))
   \/ \E s \in Streamers : \E m \in CloseModes : StreamerClose(s, m) /\ H(Rec("sclose", s, {}, m))
